@@ -47,10 +47,16 @@ func GetNotifications(ic *interop.Context) error {
 	}
 	arr := stackitem.NewArray(make([]stackitem.Item, 0, len(notifications)))
 	for i := range notifications {
+		var state stackitem.Item = notifications[i].Item
+		if !notifications[i].Item.IsReadOnly() {
+			// Events of native contracts are not read-only, the script must not
+			// be able to rewrite what has already been emitted.
+			state = stackitem.DeepCopy(state, true)
+		}
 		ev := stackitem.NewArray([]stackitem.Item{
 			stackitem.NewByteArray(notifications[i].ScriptHash.BytesBE()),
 			stackitem.Make(notifications[i].Name),
-			notifications[i].Item,
+			state,
 		})
 		arr.Append(ev)
 	}
